@@ -81,6 +81,7 @@ CONCUR_MON = {
     'C05': ('C05_Commits', 'C05_AtMostOne', 'ErrorJustified:prov', 'Escaped'),
     'C06': ('C06_Commits', 'C06_AtMostOne', 'ErrorJustified:cons', 'Escaped'),
     'C07': ('C07_Serializable', 'FinalInvariants', 'Escaped'),
+    'C10': ('C10_Monotone',),
 }
 
 FAULT = {
@@ -191,6 +192,13 @@ def run_seq(prop, tier, seed, model=True):
                 known.append((f, why))
             else:
                 violations.append((bad, why, sig))
+    extra_cov = {}
+    if prop == 'C10':
+        # generations never decrease: also on every commit of racing requests
+        v2, k2, n2 = concur_supplement('C10', 'C06', tier, seed)
+        violations.extend(v2)
+        known.extend(k2)
+        extra_cov['interleavings_checked_for_monotone_generations'] = n2
     cov = {
         'states': sum(m['states'] for m in models),
         'transitions': sum(m['transitions'] for m in models),
@@ -205,6 +213,7 @@ def run_seq(prop, tier, seed, model=True):
         'op_status_histogram': dict(sorted(ops.items())),
         'exhaustive': False,
     }
+    cov.update(extra_cov)
     if not model:
         cov.pop('states')
         cov.pop('transitions')
@@ -294,6 +303,44 @@ def concur_signature(prop, bad, reasons):
                 tags.append('success-with-guessed-generation-0-for-absent-consumer')
     return {'engine': 'concur', 'ops': '|'.join(ops), 'monitors': ','.join(reasons),
             'tags': ','.join(sorted(set(tags)))}
+
+
+def concur_supplement(prop, corpus_kind, tier, seed):
+    """Run the races of `corpus_kind` with a small schedule budget and return
+    the violations of `prop`'s monitors on them."""
+    import multiprocessing as mp
+    from pv import concur
+    ctx = mp.get_context('spawn')
+    with ctx.Pool(1) as pool:
+        db0, corp = pool.apply(concur.corpus_with_state, (corpus_kind, tier, seed))
+    nw = 12
+    jobs = []
+    for w in range(nw):
+        idx = list(range(w, len(corp), nw))
+        if idx:
+            jobs.append({'kind': corpus_kind, 'tier': tier, 'seed': seed * 101 + w,
+                         'corpus_seed': seed, 'indices': idx,
+                         'limit': 25 if tier == 'quick' else 400, 'limit3': 15 if tier == 'quick' else 200})
+    try:
+        with ctx.Pool(len(jobs)) as pool:
+            results = pool.map(concur.worker, jobs, chunksize=1)
+    except tlc.TLCError as ex:
+        raise Machinery(str(ex))
+    violations, known = [], []
+    for r in results:
+        for bad in r['bad']:
+            reasons = concur_reasons(prop, bad)
+            if not reasons:
+                continue
+            sig = concur_signature(prop, bad, reasons)
+            why = '%s under schedule %s of %s: statuses %s' % (
+                ','.join(reasons), bad['schedule'], bad['label'], bad['statuses'])
+            f = findings.lookup(prop, sig)
+            if f:
+                known.append((f, why))
+            else:
+                violations.append((bad, why, sig))
+    return violations, known, sum(r['n'] for r in results)
 
 
 def run_concur(prop, tier, seed, model=True):
